@@ -5,9 +5,9 @@ S=/verif/seeded/$1
 W=/tmp/wt/confirm_$1
 git -C /repo worktree add -q --detach $W || exit 2
 cd $W
-PYTHONPATH=$W /venv/bin/python $S/demo.py > $S/demo_without_patch.log 2>&1; echo "demo without patch: rc=$?" | tee $S/confirm.log
+PYTHONPYCACHEPREFIX=$(mktemp -d) PYTHONPATH=$W /venv/bin/python $S/demo.py > $S/demo_without_patch.log 2>&1; echo "demo without patch: rc=$?" | tee $S/confirm.log
 git apply $S/patch.diff || { echo "patch does not apply" | tee -a $S/confirm.log; cd /; git -C /repo worktree remove --force $W; exit 2; }
-PYTHONPATH=$W /venv/bin/python $S/demo.py > $S/demo_with_patch.log 2>&1; echo "demo with patch: rc=$?" | tee -a $S/confirm.log
+PYTHONPYCACHEPREFIX=$(mktemp -d) PYTHONPATH=$W /venv/bin/python $S/demo.py > $S/demo_with_patch.log 2>&1; echo "demo with patch: rc=$?" | tee -a $S/confirm.log
 [ -n "$SKIP_SUITE" ] || /venv/bin/python -m pytest -q -p no:cacheprovider --timeout=900 -n 8 2>&1 | tail -1 | tee -a $S/confirm.log
 cd /
 git -C /repo worktree remove --force $W
